@@ -1,2 +1,4 @@
 //! Generators decoded from tapes
 pub mod types;
+pub mod grammar;
+pub mod matrix;
